@@ -91,11 +91,15 @@ func pushOnceAfter(p *core.Prog, fn *ssa.Function, anchor ssa.Instruction, v ssa
 func RuleDPushOnce(c *core.Ctx) {
 	const rule = "D-push-once"
 	p := c.P
-	parseRec := p.Func(pkgSyntax, "parseRec")
 	seq := p.Func(pkgCpr, "Seq")
-	if parseRec == nil || seq == nil {
-		c.Anchor(rule, "syntax.parseRec / cpr.Seq")
+	li := loaderCycle(c)
+	if len(li.readers) == 0 || seq == nil {
+		c.Anchor(rule, "the recursive file loader of lib/syntax / cpr.Seq")
 		return
+	}
+	isReader := map[*ssa.Function]bool{}
+	for _, r := range li.readers {
+		isReader[r] = true
 	}
 	n := 0
 	for _, fn := range p.SrcFuncs() {
@@ -104,11 +108,11 @@ func RuleDPushOnce(c *core.Ctx) {
 		}
 		core.EachInstr(fn, func(ins ssa.Instruction) {
 			call, ok := ins.(*ssa.Call)
-			if !ok || call.Call.StaticCallee() != parseRec {
+			if !ok || !isReader[call.Call.StaticCallee()] {
 				return
 			}
 			n++
-			key := core.FuncName(fn) + ":file parsed by parseRec is pushed once"
+			key := core.FuncName(fn) + ":file parsed by the loader is pushed once"
 			var file ssa.Value
 			if call.Referrers() != nil {
 				for _, r := range *call.Referrers() {
@@ -118,7 +122,7 @@ func RuleDPushOnce(c *core.Ctx) {
 				}
 			}
 			if file == nil {
-				c.Ob(rule, key, call.Pos(), core.FuncName(fn), core.Violated, "the parsed file returned by parseRec is discarded: its directives never reach the journal")
+				c.Ob(rule, key, call.Pos(), core.FuncName(fn), core.Violated, "the parsed file returned by the loader is discarded: its directives never reach the journal")
 				return
 			}
 			ok2, why := pushOnceAfter(p, fn, call, file)
@@ -178,7 +182,7 @@ func RuleDPushOnce(c *core.Ctx) {
 			}
 		}
 	}
-	c.Floor(rule, 3)
+	c.Floor(rule, 2)
 }
 
 // RuleDIncludePath — include paths are resolved relative to the including
@@ -187,93 +191,73 @@ func RuleDPushOnce(c *core.Ctx) {
 func RuleDIncludePath(c *core.Ctx) {
 	const rule = "D-include-path"
 	p := c.P
-	parseRec := p.Func(pkgSyntax, "parseRec")
-	if parseRec == nil {
-		c.Anchor(rule, "syntax.parseRec")
+	li := loaderCycle(c)
+	if len(li.readers) == 0 {
+		c.Anchor(rule, "the recursive file loader of lib/syntax (a function that reads the file named by a parameter and can reach itself)")
 		return
-	}
-	// the file parameter: the string parameter that flows into os.ReadFile
-	var fileParam *ssa.Parameter
-	if i := fileReadParam(p, parseRec, 0); i >= 0 {
-		fileParam = parseRec.Params[i]
-	}
-	if fileParam == nil {
-		c.Anchor(rule, "the file parameter of syntax.parseRec (argument of os.ReadFile)")
-		return
-	}
-	idx := -1
-	for i, prm := range parseRec.Params {
-		if prm == fileParam {
-			idx = i
-		}
 	}
 	includePath := p.Field(pkgDirectives, "Include", "IncludePath")
 	n := 0
-	for _, fn := range core.WithAnon(parseRec) {
-		core.EachInstr(fn, func(ins ssa.Instruction) {
-			call, ok := ins.(*ssa.Call)
-			if !ok || call.Call.StaticCallee() != parseRec || fn == parseRec && false {
-				return
+	for _, site := range li.growthSites(p) {
+		fn := site.caller
+		n++
+		key := core.FuncName(fn) + ":path of the recursive parse"
+		arg := site.pathArg
+		var join *ssa.Call
+		for v := range originSet(p, arg, 0) {
+			if cl, ok := v.(*ssa.Call); ok {
+				if callee := cl.Call.StaticCallee(); callee != nil && callee.Pkg != nil && callee.Name() == "Join" &&
+					(callee.Pkg.Pkg.Path() == "path" || callee.Pkg.Pkg.Path() == "path/filepath") {
+					join = cl
+				}
 			}
-			n++
-			key := core.FuncName(fn) + ":path of the recursive parse"
-			arg := call.Call.Args[idx]
-			var join *ssa.Call
-			for v := range originSet(p, arg, 0) {
-				if cl, ok := v.(*ssa.Call); ok {
-					if callee := cl.Call.StaticCallee(); callee != nil && callee.Pkg != nil && callee.Name() == "Join" &&
-						(callee.Pkg.Pkg.Path() == "path" || callee.Pkg.Pkg.Path() == "path/filepath") {
-						join = cl
+		}
+		if join == nil {
+			c.Ob(rule, key, site.call.Pos(), core.FuncName(fn), core.Violated, "the included file's path is not built with path.Join/filepath.Join")
+			continue
+		}
+		// elements of the variadic Join: first must be Dir(file of this activation), a later one the include text
+		o := originSet(p, join.Call.Args[0], 0)
+		dirOK, textOK := false, false
+		for v := range o {
+			cl, ok := v.(*ssa.Call)
+			if !ok {
+				continue
+			}
+			callee := cl.Call.StaticCallee()
+			if callee == nil {
+				continue
+			}
+			if callee.Name() == "Dir" && callee.Pkg != nil && (callee.Pkg.Pkg.Path() == "path" || callee.Pkg.Pkg.Path() == "path/filepath") {
+				// the argument must be the file parameter of this activation itself (through
+				// captured variables, single-assignment cells and pass-through parameters),
+				// not an element of some container the parameter was put into
+				if prm := paramRoot(cl.Call.Args[0]); prm != nil && li.carries(p, prm, "path", 0) {
+					dirOK = true
+				}
+			}
+			if core.PkgPathOf(callee) == pkgDirectives && callee.Name() == "Extract" {
+				for w := range originSet(p, cl.Call.Args[0], 0) {
+					if fa, ok := w.(*ssa.FieldAddr); ok && core.FieldOf(fa) == includePath {
+						textOK = true
+					}
+					if f, ok := w.(*ssa.Field); ok && core.FieldOf(f) == includePath {
+						textOK = true
 					}
 				}
 			}
-			if join == nil {
-				c.Ob(rule, key, call.Pos(), core.FuncName(fn), core.Violated, "the included file's path is not built with path.Join/filepath.Join")
-				return
-			}
-			// elements of the variadic Join: first must be Dir(own file param), a later one the include text
-			o := originSet(p, join.Call.Args[0], 0)
-			dirOK, textOK := false, false
-			for v := range o {
-				cl, ok := v.(*ssa.Call)
-				if !ok {
-					continue
-				}
-				callee := cl.Call.StaticCallee()
-				if callee == nil {
-					continue
-				}
-				if callee.Name() == "Dir" && callee.Pkg != nil && (callee.Pkg.Pkg.Path() == "path" || callee.Pkg.Pkg.Path() == "path/filepath") {
-					// the argument must be the file parameter itself (through captured
-					// variables and single-assignment cells), not an element of some
-					// container the parameter was put into
-					if _, root := containerRoot(cl.Call.Args[0]); root == ssa.Value(fileParam) {
-						dirOK = true
-					}
-				}
-				if core.PkgPathOf(callee) == pkgDirectives && callee.Name() == "Extract" {
-					for w := range originSet(p, cl.Call.Args[0], 0) {
-						if fa, ok := w.(*ssa.FieldAddr); ok && core.FieldOf(fa) == includePath {
-							textOK = true
-						}
-						if f, ok := w.(*ssa.Field); ok && core.FieldOf(f) == includePath {
-							textOK = true
-						}
-					}
-				}
-			}
-			switch {
-			case !dirOK:
-				c.Ob(rule, key, call.Pos(), core.FuncName(fn), core.Violated, "the include path is not joined with Dir(<file being parsed by this very call>): includes in sub-directories resolve against the wrong directory")
-			case !textOK:
-				c.Ob(rule, key, call.Pos(), core.FuncName(fn), core.Violated, "the include path does not come from the include directive's quoted string")
-			default:
-				c.Ob(rule, key, call.Pos(), core.FuncName(fn), core.Discharged, "path = Join(Dir(file parameter of this parseRec activation), include text)")
-			}
-		})
+		}
+		switch {
+		case !dirOK:
+			c.Ob(rule, key, site.call.Pos(), core.FuncName(fn), core.Violated, "the include path is not joined with Dir(<file being parsed by this very activation>): includes in sub-directories resolve against the wrong directory")
+		case !textOK:
+			c.Ob(rule, key, site.call.Pos(), core.FuncName(fn), core.Violated, "the include path does not come from the include directive's quoted string")
+		default:
+			c.Ob(rule, key, site.call.Pos(), core.FuncName(fn), core.Discharged, "path = Join(Dir(file parameter of this activation), include text)")
+		}
 	}
 	if n == 0 {
-		c.Ob(rule, "syntax.parseRec:recursive call", parseRec.Pos(), core.FuncName(parseRec), core.Undecided, "no recursive call of parseRec found in its closures")
+		c.Ob(rule, "recursive loader:recursive call", li.readers[0].Pos(), core.FuncName(li.readers[0]), core.Undecided, "no call inside the loader's cycle computes a new path")
 	}
 	c.Floor(rule, 1)
 }
@@ -282,6 +266,13 @@ func RuleDIncludePath(c *core.Ctx) {
 // reads — it flows into os.ReadFile/Open/OpenFile in fn or, through an
 // argument, in a module helper fn calls (three levels). -1 if none.
 func fileReadParam(p *core.Prog, fn *ssa.Function, depth int) int {
+	return fileReadParamAvoiding(p, fn, depth, nil)
+}
+
+// fileReadParamAvoiding is fileReadParam that does not look into the helpers
+// in avoid (used to tell the function that reads from those that merely pass
+// the path on to it).
+func fileReadParamAvoiding(p *core.Prog, fn *ssa.Function, depth int, avoid map[*ssa.Function]bool) int {
 	if fn == nil || fn.Blocks == nil || depth > 3 {
 		return -1
 	}
@@ -301,8 +292,8 @@ func fileReadParam(p *core.Prog, fn *ssa.Function, depth int) int {
 			case "ReadFile", "Open", "OpenFile":
 				argIdx = 0
 			}
-		} else if p.InModule(callee) && callee != fn {
-			argIdx = fileReadParam(p, callee, depth+1)
+		} else if p.InModule(callee) && callee != fn && !avoid[callee] {
+			argIdx = fileReadParamAvoiding(p, callee, depth+1, avoid)
 		}
 		if argIdx < 0 || argIdx >= len(call.Common().Args) {
 			return
